@@ -36,6 +36,8 @@ def fingerprint(x, depth=0):
         return f"{type(x).__name__}(" + _h("\x1f".join(fingerprint(v, depth + 1) for v in x).encode("utf8", "surrogatepass")) + f"|{len(x)})"
     if isinstance(x, (set, frozenset)):
         return f"{type(x).__name__}(" + _h("\x1f".join(sorted(fingerprint(v, depth + 1) for v in x)).encode("utf8", "surrogatepass")) + ")"
+    if type(x).__module__.startswith(("matplotlib", "seaborn")):
+        return f"mpl:{type(x).__name__}"          # drawing targets legitimately change
     if callable(x):
         return f"callable:{getattr(x, '__qualname__', type(x).__name__)}"
     d = getattr(x, "__dict__", None)
